@@ -517,7 +517,12 @@ impl State {
                 },
             };
             let pat = &step["obs"];
-            let ok = if pat["p"] == "err" && pat["e"]["e"] == "None" { none } else { !none && matches(pat, &r, true) };
+            // the matching expected-type error of a rejected assignment is compared exactly (variant and payload);
+            // any other error by class, so that a refactoring inside an error class raises no alarm
+            let type_safety = matches!(pat["e"]["e"].as_str().unwrap_or(""), "ExpectedString" | "ExpectedInt" | "ExpectedFloat"
+                | "ExpectedBoolean" | "ExpectedTuple" | "ExpectedEmpty")
+                && (op == "set_value" || (op == "eval" && call["toks"].as_array().and_then(|t| t.get(1)).map(text_of).as_deref() == Some("=")));
+            let ok = if pat["p"] == "err" && pat["e"]["e"] == "None" { none } else { !none && matches(pat, &r, type_safety) };
             if !ok {
                 self.fail(
                     &check,
